@@ -64,8 +64,13 @@ func (s *streamWriter) Invoke(msgs []actor.Envelope) {
 	)
 
 	for i := 0; i < len(msgs); i++ {
+		stream, ok := msgs[i].Msg.(*streamDeliver)
+		if !ok {
+			// Anybody, remote peers included, can address this process by its PID.
+			slog.Error("stream writer cannot route message", "msg", msgs[i].Msg)
+			continue
+		}
 		var (
-			stream   = msgs[i].Msg.(*streamDeliver)
 			typeID   int32
 			senderID int32
 			targetID int32
